@@ -89,7 +89,17 @@ func Generate(profile string, seed uint64, tier string) (*Scenario, error) {
 				if g.P(0.4) {
 					pred = g.Pick(c.Preds)
 				}
-				sc.Ops = append(sc.Ops, Op{K: "pageStart", S: g.Pick(c.Pool), DS: pred, Latest: g.P(0.5), A: scope, Limit: g.Range(1, 2)})
+				ps := Op{K: "pageStart", S: g.Pick(c.Pool), DS: pred, Latest: g.P(0.5), A: scope, Limit: g.Range(1, 2)}
+				if !ps.Latest && g.P(0.4) {
+					// one query over several start entities: those the first page does not reach are answered, pages
+					// later, as of the same instant
+					var more []any
+					for k := g.Range(1, 3); k > 0; k-- {
+						more = append(more, g.Pick(c.Pool))
+					}
+					ps.M = map[string]any{"more": more}
+				}
+				sc.Ops = append(sc.Ops, ps)
 			}
 			if g.P(0.1) {
 				sc.Ops = append(sc.Ops, Op{K: "pageContinue"})
